@@ -221,9 +221,12 @@ def _make_app(apps, calls, notes=None):
     return app
 
 
-def run_loopback(case):
-    """The same case over a real loopback TCP connection (kernel sockets, real accept): returns the bytes the
-    client socket received and whether the server closed."""
+def run_loopback(case, expect_out=None, expect_closed=None, cap=12.0):
+    """The same case over a real loopback TCP connection (kernel sockets, real accept).  The server and the client
+    socket are serviced until the run has reached the expected end state (all expected bytes received and the
+    expected close seen) and then stayed quiet for a short while, or until what was received is no longer a prefix
+    of the expected stream, or until a generous wall-clock cap.  Returns the bytes received, whether the server
+    closed, the app calls and `reached`; nothing here depends on how many passes the kernel needed."""
     import select, socket, sys, time
     from hio.core import http
     from hio.core.http import serving
@@ -244,12 +247,17 @@ def run_loopback(case):
             return None
         cli = socket.socket(); cli.connect(("127.0.0.1", port)); cli.setblocking(False)
         got, closed, quiet, sent = bytearray(), False, 0, 0
-        deadline = time.time() + 5.0
-        while time.time() < deadline and not closed and quiet < 5:
+        deadline = time.time() + cap
+        linger = 4   # quiet rounds (of ~50 ms) after the end state, to see stray bytes or an unexpected close
+
+        def reached():
+            return expect_out is not None and bytes(got) == expect_out and closed == bool(expect_closed)
+
+        while time.time() < deadline and not closed:
             if sent < len(stream):
                 try:
                     sent += cli.send(stream[sent:sent + 97])
-                except BlockingIOError:
+                except (BlockingIOError, ConnectionResetError, BrokenPipeError):
                     pass
             server.service()
             progressed = False
@@ -263,12 +271,19 @@ def run_loopback(case):
                 pass
             except ConnectionResetError:
                 closed = True
+            if expect_out is not None and not expect_out.startswith(bytes(got)):
+                break   # a real difference: no need to wait
             if progressed or sent < len(stream):
                 quiet = 0
-            else:   # Nagle / delayed ACK hold small segments back for tens of ms: wait in real time
-                quiet += 1
-                select.select([cli], [], [], 0.06)
-        return {"out": bytes(got).hex(), "closed": closed, "calls": calls}
+                continue
+            # nothing moved: Nagle / delayed ACK / a loaded machine hold segments back - wait in real time
+            quiet += 1
+            if reached() and quiet >= linger:
+                break
+            if expect_out is None and quiet >= 40:
+                break
+            select.select([cli], [], [], 0.05)
+        return {"out": bytes(got).hex(), "closed": closed, "calls": calls, "reached": reached()}
     finally:
         serving.datetime = saved
         sys.stderr = saved_err
@@ -361,24 +376,37 @@ def extra(tier, ctx):
     import random
     rng = random.Random(ctx.seed * 7919 + 18)
     cases = directed() + [gen_case(rng) for _ in range(10 if tier == "quick" else 90)]
-    n = bad = 0
+    n = bad = inconclusive = 0
     for c in cases:
         if any(r["body"][0] == "badlen" for r in c["reqs"]):
             continue   # close on a parse error may race with unsent bytes (see design.d/C18.md)
         c = {k: v for k, v in c.items() if k not in ("rx", "tx")}
         fake = run_impl(c)
-        real = run_loopback(c)
+        want = bytes.fromhex(fake["out"])
+        real = run_loopback(c, want, fake["closed"])
         if real is None:
             ctx.notes.append("loopback listen socket unavailable; soak skipped")
             break
         n += 1
-        if (real["out"], real["closed"], real["calls"]) != (fake["out"], fake["closed"], fake["calls"]):
-            bad += 1
-            if bad <= 2:
-                ctx.violations.append({"kind": "loopback", "case": c,
-                                       "why": "stream/close over a real loopback connection differs from the fake transport run: "
-                                              f"real closed={real['closed']} {len(real['out']) // 2} bytes calls={real['calls']}; "
-                                              f"fake closed={fake['closed']} {len(fake['out']) // 2} bytes calls={fake['calls']}"})
+        got = bytes.fromhex(real["out"])
+        if (got, real["closed"], real["calls"]) == (want, fake["closed"], fake["calls"]):
+            continue
+        # outcome-level comparison only.  A real run that merely has not got to the end within the wall-clock cap
+        # (received bytes are a proper prefix, calls a prefix, no premature close) is inconclusive, not a violation.
+        prefix_only = (want.startswith(got) and fake["calls"][:len(real["calls"])] == real["calls"]
+                       and not (real["closed"] and not fake["closed"]) and not (real["closed"] and got != want))
+        if prefix_only:
+            inconclusive += 1
+            continue
+        bad += 1
+        if bad <= 2:
+            ctx.violations.append({"kind": "loopback", "case": c,
+                                   "why": "over a real loopback connection the server's byte stream / app calls / close differ from the "
+                                          f"fake transport run: real closed={real['closed']} {len(got)} bytes calls={real['calls']}; "
+                                          f"fake closed={fake['closed']} {len(want)} bytes calls={fake['calls']} "
+                                          f"(received bytes are {'a prefix' if want.startswith(got) else 'NOT a prefix'} of the expected stream)"})
+    if inconclusive:
+        ctx.notes.append(f"loopback soak: {inconclusive} case(s) did not reach the end state within the wall-clock cap (inconclusive)")
     # fault stream: raising applications (not in the Gallina model)
     fc = fault_cases(rng, 150 if tier == "quick" else 1500)
     fbad = 0
@@ -394,7 +422,7 @@ def extra(tier, ctx):
             fbad += 1
             if fbad <= 2:
                 ctx.violations.append({"kind": "fault-stream", "case": c, "why": why, "observed": o})
-    return {"loopback_soak_cases": n, "loopback_soak_mismatches": bad, "fault_stream_cases": len(fc), "fault_stream_failures": fbad}
+    return {"loopback_soak_cases": n, "loopback_soak_mismatches": bad, "loopback_soak_inconclusive": inconclusive, "fault_stream_cases": len(fc), "fault_stream_failures": fbad}
 
 
 
